@@ -1,7 +1,12 @@
 package main
 
 import (
+	"encoding/hex"
+	"fmt"
 	"net/http"
+	"os"
+	"strconv"
+	"strings"
 	"time"
 
 	"github.com/robbyt/go-supervisor/runnables/httpserver"
@@ -156,8 +161,50 @@ func mutateCfg(r *prng.R, a cfgSpec) cfgSpec {
 	return b
 }
 
+// decSpec is the inverse of cfgSpec.enc (used by replays).
+func decSpec(s string) (cfgSpec, error) {
+	f := strings.Split(s, ";")
+	if len(f) != 6 {
+		return cfgSpec{}, fmt.Errorf("bad config encoding %q", s)
+	}
+	unhex := func(x string) string { b, _ := hex.DecodeString(x); return string(b) }
+	c := cfgSpec{Addr: unhex(f[0])}
+	c.Drain, _ = strconv.ParseInt(f[1], 10, 64)
+	c.Read, _ = strconv.ParseInt(f[2], 10, 64)
+	c.Write, _ = strconv.ParseInt(f[3], 10, 64)
+	c.Idle, _ = strconv.ParseInt(f[4], 10, 64)
+	if f[5] != "" {
+		for _, r := range strings.Split(f[5], ",") {
+			np := strings.Split(r, ":")
+			if len(np) != 2 {
+				return c, fmt.Errorf("bad route encoding %q", r)
+			}
+			c.Routes = append(c.Routes, rt{unhex(np[0]), unhex(np[1])})
+		}
+	}
+	return c, nil
+}
+
 func runEqual() {
 	switch *mode {
+	case "pair": // replay: -case file with two lines, each an encoded configuration
+		b, err := os.ReadFile(*caseArg)
+		if err != nil {
+			fmt.Fprintln(os.Stderr, err)
+			os.Exit(2)
+		}
+		ls := strings.Fields(string(b))
+		if len(ls) < 2 {
+			fmt.Fprintln(os.Stderr, "pair file needs two encoded configurations")
+			os.Exit(2)
+		}
+		x, e1 := decSpec(ls[0])
+		y, e2 := decSpec(ls[1])
+		if e1 != nil || e2 != nil {
+			fmt.Fprintln(os.Stderr, e1, e2)
+			os.Exit(2)
+		}
+		emitEq(x, y)
 	case "exhaustive":
 		var univ []rt
 		for _, n := range eqNames {
